@@ -169,6 +169,7 @@ type c16Item struct {
 	HasCT   bool   `json:"has_content_type"`
 	Broken  string `json:"broken,omitempty"`
 	Pretty  bool   `json:"pretty"`
+	Untyped bool   `json:"untyped_target"` // JSON read into map[string]interface{}: numbers must arrive as exact json.Number
 	body    []byte
 	orig    rtEntity
 	wantErr bool
@@ -177,6 +178,8 @@ type c16Item struct {
 
 type c16Result struct {
 	got      rtEntity
+	gotAny   map[string]interface{}
+	untyped  bool
 	err      error
 	panicked interface{}
 }
@@ -226,7 +229,7 @@ func breakBody(r *core.Rand, it *c16Item, plain []byte) {
 
 func c16(ctx *core.Ctx) {
 	quietLogs()
-	ctx.Rule("values of a generated struct family (int64/uint64 extremes and 2^53+1, int32, float64 incl. max/denormal/random bit patterns, bool, attribute, nested struct, non-empty slices, strings over ASCII/markup/control/unicode runes restricted to XML Char for XML) are written by the framework's own entity writer (pretty on/off), optionally gzip/deflate-compressed by the harness and posted to an echo route calling ReadEntity; Content-Type spellings with parameters and optional whitespace, or absent with a default request content type; both providers. Histories of 24 requests interleave well-formed bodies with broken ones {syntax, truncated document, empty, bad magic, declared-but-plain, garbage, truncated stream, trailer cut/flipped, syntax inside a valid stream}; run sequentially and from 16 goroutines (race detector on). Oracle: reference decode with fresh stdlib readers: error iff the reference errs (never a panic), value DeepEqual to the original / the reference value; every well-formed request round-trips whatever came before. Non-trivial = every judged request; distinct by (codec, coding, content-type spelling, broken kind, pretty, provider, mode).")
+	ctx.Rule("values of a generated struct family (int64/uint64 extremes and 2^53+1, int32, float64 incl. max/denormal/random bit patterns, bool, attribute, nested struct, non-empty slices, strings over ASCII/markup/control/unicode runes restricted to XML Char for XML) are written by the framework's own entity writer (pretty on/off), optionally gzip/deflate-compressed by the harness and posted to an echo route calling ReadEntity into the struct or (JSON, every 4th) into an untyped map where numbers must arrive as exact json.Number; Content-Type spellings with parameters and optional whitespace, or absent with a default request content type; both providers. Histories of 24 requests interleave well-formed bodies with broken ones {syntax, truncated document, empty, bad magic, declared-but-plain, garbage, truncated stream, trailer cut/flipped, syntax inside a valid stream}; run sequentially and from 16 goroutines (race detector on). Oracle: reference decode with fresh stdlib readers: error iff the reference errs (never a panic), value DeepEqual to the original / the reference value; every well-formed request round-trips whatever came before. Non-trivial = every judged request; distinct by (codec, coding, content-type spelling, broken kind, pretty, provider, mode).")
 	ctx.Assume("an error is demanded only when the stdlib reference decode of the same bytes errs (a stream missing only its trailer decodes fine, DESIGN §4.8)")
 	defer restful.SetCompressorProvider(restful.NewSyncPoolCompessors())
 	defer restful.DefaultRequestContentType("")
@@ -269,7 +272,11 @@ func c16(ctx *core.Ctx) {
 		}))
 		ws.Route(ws.POST("/echo").To(func(req *restful.Request, resp *restful.Response) {
 			res := req.Request.Context().Value(c16Key{}).(*c16Result)
-			res.err = req.ReadEntity(&res.got)
+			if res.untyped {
+				res.err = req.ReadEntity(&res.gotAny)
+			} else {
+				res.err = req.ReadEntity(&res.got)
+			}
 			resp.WriteHeader(204)
 		}))
 		c.Add(ws)
@@ -279,6 +286,7 @@ func c16(ctx *core.Ctx) {
 			it := &c16Item{Kind: []string{"json", "xml"}[r.Intn(2)], Coding: []string{"", "gzip", "deflate"}[r.Intn(3)], Pretty: r.Chance(1, 2)}
 			it.orig = genEntity(r, it.Kind == "xml")
 			it.HasCT, it.CT = true, r.Pick(ctSpell[it.Kind])
+			it.Untyped = it.Kind == "json" && r.Chance(1, 4)
 			if defKind == it.Kind && r.Chance(1, 3) {
 				it.HasCT = false // rely on the default request content type
 				if r.Chance(1, 2) {
@@ -311,7 +319,7 @@ func c16(ctx *core.Ctx) {
 			items = append(items, it)
 		}
 		send := func(it *c16Item) *c16Result {
-			res := &c16Result{}
+			res := &c16Result{untyped: it.Untyped}
 			req := rt.Req{Method: "POST", Path: "/rt/echo", HasCT: it.HasCT, CT: it.CT, Hdr: map[string]string{}, BodyLen: len(it.body)}
 			if it.Coding != "" {
 				req.Hdr["Content-Encoding"] = it.Coding
@@ -370,6 +378,20 @@ func c16(ctx *core.Ctx) {
 					sig += ":after-broken"
 				}
 				ctx.Violation(hi, sig, fmt.Sprintf("reading a well-formed %s body (Content-Type %q present=%v, coding %q) failed: %v", it.Kind, it.CT, it.HasCT, it.Coding, res.err), doc)
+				return
+			}
+			if it.Untyped {
+				// the untyped view of the document: every number is a json.Number carrying the exact digits
+				var ref map[string]interface{}
+				plainDoc, _ := json.Marshal(want)
+				d := json.NewDecoder(bytes.NewReader(plainDoc))
+				d.UseNumber()
+				d.Decode(&ref)
+				ctx.Count("untyped_targets_judged", 1)
+				if !reflect.DeepEqual(res.gotAny, ref) {
+					doc["got"], doc["want"] = fmt.Sprintf("%v", res.gotAny), fmt.Sprintf("%v", ref)
+					ctx.Violation(hi, "c16:untyped-value-differs:"+cell, fmt.Sprintf("untyped value read back differs from the document written (i64=%v u64=%v, want %d / %d)", res.gotAny["i64"], res.gotAny["u64"], want.I64, want.U64), doc)
+				}
 				return
 			}
 			g, w := res.got, want
